@@ -1591,7 +1591,12 @@ class Translator:
         # box members indexed with (i): handled by the evaluator through call on an S value
         is_zero = None
         structure = None
-        for s in parse_stmts(body):
+        sts = parse_stmts(body)
+        # the counter: declared first (`index_t nJ = 0;`, the lambdas capture it) and returned last (`return nJ;`), nothing after it
+        if len(sts) < 2 or sts[0][:3] != ("decl", "nJ", ("num", "0")) or sts[-1] != ("return", ("id", "nJ")) or \
+                any(x[0] == "return" or (x[0] == "decl" and x[1] == "nJ") for x in sts[1:-1]):
+            oog("eval_inactive_indices_res_lna does not start with `index_t nJ = 0;` and end with its only `return nJ;`")
+        for s in sts:
             if s[0] == "decl" and s[2] is not None:
                 if s[1] == "nJ":
                     if s[2] != ("num", "0"):
@@ -1631,6 +1636,8 @@ class Translator:
         params, body = find_function(src, "prox")
         body = flat(body)
         ones = "if constexpr (std::is_same_v<weight_t, vec>) if (λ.size() == 0) λ = weight_t::Ones(n);"
+        if body.count(ones) != 1 or flat("} else { " + ones) not in body:
+            oog("%s::prox: the all-ones default `%s` is not the first statement of the vector-weight branch" % (struct, ones))
         body = body.replace(ones, " ")          # recognised and NOT modelled: an empty weight vector means all-ones
         st = parse_stmts(body)
         pre, a, b = [], None, None
